@@ -221,11 +221,23 @@ def oracle_step(pid, tier, deep):
         return None
     r = rng(pid + ":oracle")
     t0 = time.time()
-    if deep and tier == "quick":
-        # deep search started from the quick tier: follow the thorough schedule, but only for a bounded time
-        common.set_oracle_cap(float(os.environ.get("VERIF_DEEP_S", "300")))
     try:
-        o = mod.run("thorough" if deep else tier, r)
+        if deep and tier == "quick":
+            # deep search started from the quick tier: the ordinary quick schedule first (complete: every family of cases of the
+            # oracle gets its share), then the thorough schedule for a bounded time (its long exhaustive stages must not starve
+            # the families that come after them)
+            o = mod.run("quick", r)
+            if not o.get("violations"):
+                common.set_oracle_cap(float(os.environ.get("VERIF_DEEP_S", "300")))
+                o2 = mod.run("thorough", rng(pid + ":oracle:deep"))
+                for k_ in ("explored", "distinct_nontrivial"):
+                    if isinstance(o.get(k_), (int, float)) and isinstance(o2.get(k_), (int, float)):
+                        o2[k_] = o2[k_] + o[k_]
+                o2["known"] = list(o.get("known", [])) + list(o2.get("known", []))
+                o2["quick_stage"] = {"explored": o.get("explored"), "stats": o.get("stats")}
+                o = o2
+        else:
+            o = mod.run(tier, r)
     except (Infra, subprocess.TimeoutExpired, KeyboardInterrupt, SystemExit):
         raise
     except BaseException as e:           # noqa - the oracle itself could not cope with what the implementation did
